@@ -33,7 +33,7 @@ Fixpoint qlist_eqb (a b : list Qc) : bool :=
 
 (* ---- the pure list phenomenon ---- *)
 Definition w_roots : list (Cplx Qc) := [(qc 7 10, Q0); (qc 1 10, Q0); (qc 7 10, Q0)].
-Definition w_out : list Qc := polyroots01 NumQ atolQ rtolQ w_roots.
+Definition w_out : list Qc := polyroots01 NumQ atolQ rtolQ false w_roots.
 (* every listed root passes the filters, yet the simple one is not returned *)
 Definition dedup_drops_simple_root : bool :=
   qlist_eqb (filter (le01 NumQ) (real_roots NumQ atolQ rtolQ w_roots)) [qc 7 10; qc 1 10; qc 7 10]
@@ -46,12 +46,12 @@ Definition w_roots4 : list (Cplx Qc) := [(qc 9 10, Q0); (qc 6 10, Q0); (qc 6 10,
 Definition w_roots5 : list (Cplx Qc) :=
   [(qc 9 10, Q0); (qc 6 10, Q0); (qc 6 10, Q0); (qc 4 10, Q0); (qc 2 10, Q0)].
 Definition dedup_drops_last_root : bool :=
-  qlist_eqb (polyroots01 NumQ atolQ rtolQ w_roots4) [qc 9 10; qc 6 10; qc 6 10]
-  && qlist_eqb (polyroots01 NumQ atolQ rtolQ w_roots5) [qc 9 10; qc 6 10; qc 6 10; qc 4 10].
+  qlist_eqb (polyroots01 NumQ atolQ rtolQ false w_roots4) [qc 9 10; qc 6 10; qc 6 10]
+  && qlist_eqb (polyroots01 NumQ atolQ rtolQ false w_roots5) [qc 9 10; qc 6 10; qc 6 10; qc 4 10].
 (* ... while the intended behaviour (two roots, or the close pair first) is harmless *)
 Definition dedup_ok_cases : bool :=
-  qlist_eqb (polyroots01 NumQ atolQ rtolQ [(qc 7 10, Q0); (qc 7 10, Q0)]) [qc 7 10]
-  && qlist_eqb (polyroots01 NumQ atolQ rtolQ [(qc 7 10, Q0); (qc 7 10, Q0); (qc 1 10, Q0)]) [qc 7 10; qc 1 10].
+  qlist_eqb (polyroots01 NumQ atolQ rtolQ false [(qc 7 10, Q0); (qc 7 10, Q0)]) [qc 7 10]
+  && qlist_eqb (polyroots01 NumQ atolQ rtolQ false [(qc 7 10, Q0); (qc 7 10, Q0); (qc 1 10, Q0)]) [qc 7 10; qc 1 10].
 
 (* ---- consequence for bezier_radialrange ---- *)
 Definition w_s : Cplx Qc := (qc (-1) 2, qc 1 4).
@@ -70,7 +70,7 @@ Definition w_oracle_exact : bool :=
     (pscale NumQ (qc 4 1) (pmul NumQ [qc 1 1; qc (-7) 10] (pmul NumQ [qc 1 1; qc (-7) 10] [qc 1 1; qc (-1) 10])))
   && forallb (fun r => Qc_eq_bool (peval NumQ w_dr2 (fst r)) Q0 && Qc_eq_bool (snd r) Q0) w_roots.
 
-Definition w_result := bezier_radialrange NumQ NumTQ_sq atolQ rtolQ w_point w_z w_roots.
+Definition w_result := bezier_radialrange NumQ NumTQ_sq false atolQ rtolQ w_point w_z w_roots.
 (* returned: (d^2, t)_min = (88981/250000, 0); but t = 1/10 is strictly closer *)
 Definition w_nonglobal : bool :=
   Qc_eq_bool (snd (fst w_result)) Q0
@@ -78,6 +78,23 @@ Definition w_nonglobal : bool :=
   && Qc_ltb (w_sqd (qc 1 10)) (fst (fst w_result))
   && le01 NumQ (qc 1 10).
 
+(* ---- the repaired variant (fixed = true: drop the LATER root of a close pair)
+   on the same oracle outputs: every distinct root survives once, and
+   bezier_radialrange returns the global minimiser t = 1/10 ---- *)
+Definition dedup_fixed_keeps_roots : bool :=
+  qlist_eqb (polyroots01 NumQ atolQ rtolQ true w_roots) [qc 7 10; qc 1 10]
+  && qlist_eqb (polyroots01 NumQ atolQ rtolQ true w_roots4) [qc 9 10; qc 6 10; qc 2 10]
+  && qlist_eqb (polyroots01 NumQ atolQ rtolQ true w_roots5) [qc 9 10; qc 6 10; qc 4 10; qc 2 10].
+Definition w_result_fixed := bezier_radialrange NumQ NumTQ_sq true atolQ rtolQ w_point w_z w_roots.
+Definition w_fixed_global : bool :=
+  Qc_eq_bool (snd (fst w_result_fixed)) (qc 1 10)
+  && Qc_eq_bool (fst (fst w_result_fixed)) (w_sqd (qc 1 10))
+  && forallb (fun t => Qc_leb (fst (fst w_result_fixed)) (w_sqd t)) [Q0; qc 1 1; qc 7 10; qc 1 10].
+
+Lemma dedup_fixed_keeps_roots_true : dedup_fixed_keeps_roots = true.
+Proof. vm_compute. reflexivity. Qed.
+Lemma w_fixed_global_true : w_fixed_global = true.
+Proof. vm_compute. reflexivity. Qed.
 Lemma dedup_drops_simple_root_true : dedup_drops_simple_root = true.
 Proof. vm_compute. reflexivity. Qed.
 Lemma dedup_drops_last_root_true : dedup_drops_last_root = true.
